@@ -28,9 +28,9 @@ RULE = ("graphs = all step sets enumerated by TLC from MC_Validate.tla within th
         "Workflow subclass; every graph has >=1 step except the single empty one; distinct_nontrivial counts "
         "distinct (accept, return, role, scope, skip) signatures with >=1 step")
 
-QUICK = ["quick_core", "quick_kinds", "quick_skips", "quick_handlers"]
+QUICK = ["quick_core", "quick_kinds", "quick_skips", "quick_handlers", "quick_island"]
 THOROUGH = ["thorough_core_acc2", "thorough_core_ret2", "thorough_kinds", "thorough_unions", "thorough_skips", "thorough_handlers",
-            "thorough_handlers3"]
+            "thorough_handlers3", "quick_island"]
 CHUNK = 60000           # traces per observer run
 MAX_PER_INSTANCE = 400000   # beyond this an instance is sampled by seed (thorough only)
 
